@@ -353,6 +353,44 @@ theorem modifyParams_inv (h : Heap) (X : Oid) (us : List PUpd) :
         cases hu : applyUpds p us with
         | mk p' r => exact Or.inr (Or.inr ⟨s, p, p', r, rfl, hp, hb, hu, rfl⟩)
 
+theorem loadExtension_inv (h : Heap) (X : Oid) (e : Ext) :
+    (loadExtension h X e).1 = (addVariables h X e.vars).1 ∨
+    (∃ h1 s p b p' r, addVariables h X e.vars = (h1, .ok ()) ∧ h1.getSys X = some s ∧
+        h1.getPar s.params = some p ∧ s.baseline = some b ∧ e.params ≠ [] ∧
+        loadExtension h X e = ((h1.allocs [.par p']).put X (.sys { s with params := h1.next }), r)) ∨
+    (∃ h1 s p p' r, addVariables h X e.vars = (h1, .ok ()) ∧ h1.getSys X = some s ∧
+        h1.getPar s.params = some p ∧ s.baseline = none ∧ e.params ≠ [] ∧
+        loadExtension h X e = (h1.put s.params (.par p'), r)) := by
+  unfold loadExtension
+  cases hr : addVariables h X e.vars with
+  | mk h1 res =>
+    cases res with
+    | error er => exact Or.inl rfl
+    | ok u =>
+      cases u
+      dsimp only
+      cases hq : e.params with
+      | nil => exact Or.inl rfl
+      | cons q qs =>
+        dsimp only
+        cases hs : h1.getSys X with
+        | none => exact Or.inl rfl
+        | some s =>
+          dsimp only
+          cases hp : h1.getPar s.params with
+          | none => exact Or.inl rfl
+          | some p =>
+            dsimp only
+            cases hb : s.baseline with
+            | some b =>
+              dsimp only
+              cases hm : mergeParams p (q :: qs) with
+              | mk p' r => exact Or.inr (Or.inl ⟨h1, s, p, b, p', r, rfl, hs, hp, hb, by simp, by rw [hb]⟩)
+            | none =>
+              dsimp only
+              cases hm : mergeParams p (q :: qs) with
+              | mk p' r => exact Or.inr (Or.inr ⟨h1, s, p, p', r, rfl, hs, hp, hb, by simp, rfl⟩)
+
 /-! ### one frame lemma per operation -/
 
 theorem good_bindVar {n : Nat} {h : Heap} (hi : Inv n h) (hn : n ≤ h.next) (s : SysObj)
@@ -403,6 +441,37 @@ theorem good_modifyParams {n : Nat} {h : Heap} (hi : Inv n h) (hn : n ≤ h.next
   · rw [he]
     exact good_put hi hn _ ((inv_sys hi hX hs).2 hb) trivial
 
+theorem good_addVariables' {n : Nat} {h : Heap} (hi : Inv n h) (hn : n ≤ h.next) {X : Nat} (hX : n ≤ X)
+    (cs : List ClassDef) : Good n h (addVariables h X cs).1 := by
+  induction cs generalizing h with
+  | nil => exact Good.refl hi hn
+  | cons c r ih =>
+    have g1 := good_loadVariable hi hn hX c false
+    unfold addVariables
+    cases hr : loadVariable h X c false with
+    | mk h1 res =>
+      rw [hr] at g1
+      cases res with
+      | ok u => cases u; exact g1.trans (ih g1.2.1 g1.2.2)
+      | error e => exact g1
+
+/-- `load_extension` writes only objects owned by its target: a plain derived system is a copy and
+    owns its tree; a system with a baseline merges into a fresh copy (repair F-C14f) -/
+theorem good_loadExtension {n : Nat} {h : Heap} (hi : Inv n h) (hn : n ≤ h.next) {X : Nat} (hX : n ≤ X)
+    (e : Ext) : Good n h (loadExtension h X e).1 := by
+  have g1 := good_addVariables' hi hn hX e.vars
+  rcases loadExtension_inv h X e with he | ⟨h1, s, p, b, p', r, ha, hs, hp, hb, _, he⟩ | ⟨h1, s, p, p', r, ha, hs, hp, hb, _, he⟩
+  · rw [he]; exact g1
+  · rw [ha] at g1
+    rw [he]
+    have hinv := inv_sys g1.2.1 hX hs
+    have g2 : Good n h1 (h1.allocs [.par p']) :=
+      good_allocs g1.2.1 g1.2.2 _ (by intro o ho; simp at ho; subst ho; trivial)
+    exact g1.trans (g2.trans (good_put g2.2.1 g2.2.2 _ hX ⟨hinv.1, fun hnone => by simp [hb] at hnone⟩))
+  · rw [ha] at g1
+    rw [he]
+    exact g1.trans (good_put g1.2.1 g1.2.2 _ ((inv_sys g1.2.1 hX hs).2 hb) trivial)
+
 theorem good_applyMod {n : Nat} {h : Heap} (hi : Inv n h) (hn : n ≤ h.next) {X : Nat} (hX : n ≤ X)
     (m : Mod) : Good n h (applyMod h X m).1 := by
   cases m with
@@ -412,6 +481,7 @@ theorem good_applyMod {n : Nat} {h : Heap} (hi : Inv n h) (hn : n ≤ h.next) {X
   | neutralize nm => exact good_neutralizeVar hi hn hX nm
   | annualize nm => exact good_annualizeVar hi hn hX nm
   | params us => exact good_modifyParams hi hn hX us
+  | loadExt e => exact good_loadExtension hi hn hX e
 
 theorem good_applyMods {n : Nat} {h : Heap} (hi : Inv n h) (hn : n ≤ h.next) {X : Nat} (hX : n ≤ X)
     (ms : List Mod) : Good n h (applyMods h X ms).1 := by
@@ -668,6 +738,42 @@ theorem getSys_loadVariable {h : Heap} {X : Oid} {cls : ClassDef} {u : Bool} {Y 
   · rw [he] at hg; exact hg
   · rw [he] at hg; exact getSys_bindVar hg
 
+theorem getSys_addVariables {h : Heap} {X : Oid} {cs : List ClassDef} {Y : Nat} {x : SysObj}
+    (hg : (addVariables h X cs).1.getSys Y = some x) : h.getSys Y = some x := by
+  induction cs generalizing h with
+  | nil => exact hg
+  | cons c r ih =>
+    unfold addVariables at hg
+    cases hr : loadVariable h X c false with
+    | mk h1 res =>
+      rw [hr] at hg
+      have back : h1.getSys Y = some x → h.getSys Y = some x := fun h' => by
+        have : (loadVariable h X c false).1.getSys Y = some x := by rw [hr]; exact h'
+        exact getSys_loadVariable this
+      cases res with
+      | ok u => cases u; exact back (ih hg)
+      | error e => exact back hg
+
+theorem next_loadVariable (h : Heap) (X : Oid) (c : ClassDef) (u : Bool) : h.next ≤ (loadVariable h X c u).1.next := by
+  rcases loadVariable_inv h X c u with ⟨e, he⟩ | ⟨s, m, v, _, _, _, _, he⟩
+  · rw [he]; exact Nat.le_refl _
+  · rw [he]
+    show h.next ≤ ((h.allocs [.var v]).put s.vars _).next
+    rw [next_put, next_allocs]; exact Nat.le_add_right _ _
+
+theorem next_addVariables (h : Heap) (X : Oid) (cs : List ClassDef) : h.next ≤ (addVariables h X cs).1.next := by
+  induction cs generalizing h with
+  | nil => exact Nat.le_refl _
+  | cons c r ih =>
+    have n1 := next_loadVariable h X c false
+    unfold addVariables
+    cases hr : loadVariable h X c false with
+    | mk h1 res =>
+      rw [hr] at n1
+      cases res with
+      | ok u => cases u; exact Nat.le_trans n1 (ih h1)
+      | error e => exact n1
+
 /-- the system objects after one modification of `X`: the same, except that a parameter modifier on
     a reform re-points `X` to a tree allocated just now -/
 theorem applyMod_getSys {h : Heap} {X : Oid} {m : Mod} {Y : Nat} {x : SysObj}
@@ -715,6 +821,31 @@ theorem applyMod_getSys {h : Heap} {X : Oid} {m : Mod} {Y : Nat} {x : SysObj}
         rw [look_put_ne _ _ hY] at hl
         exact getSys_allocs_nonsys (by intro o ho s; simp at ho; subst ho; simp) (getSys_of_look hl)
     · rw [he] at hg; exact Or.inl (getSys_put_nonsys (by intro s; simp) hg)
+  | loadExt e =>
+    change (loadExtension h X e).1.getSys Y = some x at hg
+    rcases loadExtension_inv h X e with he | ⟨h1, s, p, b, p', r, ha, hs, _, _, _, he⟩ | ⟨h1, s, p, p', r, ha, _, _, _, _, he⟩
+    · rw [he] at hg; exact Or.inl (getSys_addVariables hg)
+    · have hgrow : h.next ≤ h1.next := by have := next_addVariables h X e.vars; rw [ha] at this; exact this
+      have back : h1.getSys Y = some x → h.getSys Y = some x := fun h' =>
+        getSys_addVariables (by rw [ha]; exact h')
+      rw [he] at hg
+      by_cases hY : X = Y
+      · right
+        subst hY
+        have hl := look_of_getSys hg
+        rw [look_put, if_pos rfl] at hl
+        by_cases hlt : X < (h1.allocs [Obj.par p']).next
+        · rw [if_pos hlt] at hl
+          simp only [Option.some.injEq, Obj.sys.injEq] at hl
+          rw [← hl]
+          exact ⟨rfl, hgrow⟩
+        · rw [if_neg hlt] at hl; cases hl
+      · left
+        have hl := look_of_getSys hg
+        rw [look_put_ne _ _ hY] at hl
+        exact back (getSys_allocs_nonsys (by intro o ho s; simp at ho; subst ho; simp) (getSys_of_look hl))
+    · rw [he] at hg
+      exact Or.inl (getSys_addVariables (by rw [ha]; exact getSys_put_nonsys (by intro s; simp) hg))
 
 /-- `X` holds a parameter tree created at or after `n` (it may update it in place) -/
 def OwnsP (n : Nat) (h : Heap) (X : Oid) : Prop := ∀ s, h.getSys X = some s → n ≤ s.params
@@ -814,66 +945,18 @@ theorem good_applyReforms {n : Nat} {h : Heap} (hi : Inv n h) (hn : n ≤ h.next
         obtain ⟨g2, h2⟩ := ih g1.2.1 g1.2.2 hge (o1 R1 rfl)
         exact ⟨g1.trans g2, h2⟩
 
-theorem good_addVariables {n : Nat} {h : Heap} (hi : Inv n h) (hn : n ≤ h.next) {X : Nat} (hX : n ≤ X)
-    (ho : OwnsP n h X) (cs : List ClassDef) :
-    Good n h (addVariables h X cs).1 ∧ OwnsP n (addVariables h X cs).1 X := by
-  induction cs generalizing h with
-  | nil => exact ⟨Good.refl hi hn, ho⟩
-  | cons c r ih =>
-    have g1 := good_loadVariable hi hn hX c false
-    have o1 : OwnsP n (loadVariable h X c false).1 X := fun s hs => ho s (getSys_loadVariable hs)
-    unfold addVariables
-    cases hr : loadVariable h X c false with
-    | mk h1 res =>
-      rw [hr] at g1 o1
-      cases res with
-      | ok u => cases u; obtain ⟨g2, o2⟩ := ih g1.2.1 g1.2.2 o1; exact ⟨g1.trans g2, o2⟩
-      | error e => exact ⟨g1, o1⟩
-
-/-- `load_extension` on a system that owns its tree writes only objects it owns -/
-theorem good_loadExtension {n : Nat} {h : Heap} (hi : Inv n h) (hn : n ≤ h.next) {X : Nat} (hX : n ≤ X)
-    (ho : OwnsP n h X) (e : Ext) :
-    Good n h (loadExtension h X e).1 ∧ OwnsP n (loadExtension h X e).1 X := by
-  obtain ⟨g1, o1⟩ := good_addVariables hi hn hX ho e.vars
-  unfold loadExtension
-  cases hr : addVariables h X e.vars with
-  | mk h1 res =>
-    rw [hr] at g1 o1
-    cases res with
-    | error er => exact ⟨g1, o1⟩
-    | ok u =>
-      cases u
-      dsimp only
-      cases hq : e.params with
-      | nil => exact ⟨g1, o1⟩
-      | cons q qs =>
-        dsimp only
-        cases hs : h1.getSys X with
-        | none => exact ⟨g1, o1⟩
-        | some s =>
-          dsimp only
-          cases hp : h1.getPar s.params with
-          | none => exact ⟨g1, o1⟩
-          | some p =>
-            dsimp only
-            cases hm : mergeParams p (q :: qs) with
-            | mk p' r =>
-              dsimp only
-              have g2 := good_put g1.2.1 g1.2.2 (i := s.params) (.par p') (o1 s hs) trivial
-              exact ⟨g1.trans g2, fun s' hs' => o1 s' (getSys_put_nonsys (by intro s; simp) hs')⟩
-
 theorem good_loadExtensions {n : Nat} {h : Heap} (hi : Inv n h) (hn : n ≤ h.next) {X : Nat} (hX : n ≤ X)
-    (ho : OwnsP n h X) (es : List Ext) : Good n h (loadExtensions h X es).1 := by
+    (es : List Ext) : Good n h (loadExtensions h X es).1 := by
   induction es generalizing h with
   | nil => exact Good.refl hi hn
   | cons e r ih =>
-    obtain ⟨g1, o1⟩ := good_loadExtension hi hn hX ho e
+    have g1 := good_loadExtension hi hn hX e
     unfold loadExtensions
     cases hr : loadExtension h X e with
     | mk h1 res =>
-      rw [hr] at g1 o1
+      rw [hr] at g1
       cases res with
-      | ok u => cases u; exact g1.trans (ih g1.2.1 g1.2.2 o1)
+      | ok u => cases u; exact g1.trans (ih g1.2.1 g1.2.2)
       | error er => exact g1
 
 /-- a clone owns its parameter tree, whatever it is a clone of -/
@@ -938,7 +1021,7 @@ theorem good_testRunnerDerive {n : Nat} {h : Heap} (hi : Inv n h) (hn : n ≤ h.
       | error e => exact ⟨g1.trans g2, fun R hR => by cases hR⟩
       | ok R =>
         obtain ⟨hRge, oR⟩ := h2 R rfl
-        have g3 := good_loadExtensions g2.2.1 g2.2.2 hRge oR es
+        have g3 := good_loadExtensions g2.2.1 g2.2.2 hRge es
         dsimp only
         cases hl : loadExtensions h2' R es with
         | mk h3 res3 =>
@@ -1546,6 +1629,123 @@ theorem modSpec_modifyParams {h : Heap} {X : Oid} (hw : SysWF h X) (us : List PU
         rw [hk.keepVar _ _ hv, hv]
     · rw [hs] at hs1; cases hs1; exact ⟨_, hs', rfl, rfl, rfl⟩
 
+theorem ModSpec.weaken {h h' : Heap} {X : Oid} {t t' : List String} {b b' : Bool} (sp : ModSpec h X t b h')
+    (ht : ∀ n, n ∉ t' → n ∉ t) (hb : b' = false → b = false) : ModSpec h X t' b' h' :=
+  ⟨sp.wf, fun n hn => sp.vars n (ht n hn), fun hb' => sp.pars (hb hb'), sp.keeps, sp.sysSame⟩
+
+theorem ModSpec.trans {h₁ h₂ h₃ : Heap} {X : Oid} {t₁ t₂ : List String} {b₁ b₂ : Bool}
+    (a : ModSpec h₁ X t₁ b₁ h₂) (c : ModSpec h₂ X t₂ b₂ h₃) : ModSpec h₁ X (t₁ ++ t₂) (b₁ || b₂) h₃ := by
+  refine ⟨c.wf, ?_, ?_, a.keeps.trans c.keeps, fun s hs => ?_⟩
+  · intro nm hnm
+    simp only [List.mem_append, not_or] at hnm
+    rw [c.vars nm hnm.2, a.vars nm hnm.1]
+  · intro hb pn d
+    simp only [Bool.or_eq_false_iff] at hb
+    rw [c.pars hb.2 pn d, a.pars hb.1 pn d]
+  · obtain ⟨s1, hs1, e1, e2, e3⟩ := a.sysSame s hs
+    obtain ⟨s2, hs2, f1, f2, f3⟩ := c.sysSame s1 hs1
+    exact ⟨s2, hs2, f1.trans e1, f2.trans e2, f3.trans e3⟩
+
+theorem modSpec_addVariables {h : Heap} {X : Oid} (hw : SysWF h X) (cs : List ClassDef) :
+    ModSpec h X (cs.map (fun c => c.name)) false (addVariables h X cs).1 := by
+  induction cs generalizing h with
+  | nil => exact ModSpec.refl hw _ _
+  | cons c r ih =>
+    have sp1 := modSpec_loadVariable hw c false false
+    unfold addVariables
+    cases hr : loadVariable h X c false with
+    | mk h1 res =>
+      rw [hr] at sp1
+      cases res with
+      | ok u => cases u; exact (sp1.trans (ih sp1.wf)).weaken (fun n hn => by simpa using hn) (fun _ => rfl)
+      | error e =>
+        exact sp1.weaken (fun n hn => by simp only [List.map_cons, List.mem_cons, not_or] at hn; simpa using hn.1)
+          (fun _ => rfl)
+
+/-- re-pointing `X` to a freshly allocated tree (what `modify_parameters` and, on a reform,
+    `load_extension` do) -/
+theorem modSpec_rebind {h : Heap} {X : Oid} (hw : SysWF h X) {s : SysObj} (hs : h.getSys X = some s)
+    (p' : ParamTree) :
+    ModSpec h X [] true ((h.allocs [.par p']).put X (.sys { s with params := h.next })) := by
+  obtain ⟨s0, m0, p0, hs0, hm0, hp0, he0⟩ := hw
+  rw [hs] at hs0; cases hs0
+  have lX := look_of_getSys hs
+  have lM := look_of_getMap hm0
+  have hXlt := lt_next_of_look h lX
+  have hMlt := lt_next_of_look h lM
+  have lX1 : (h.allocs [.par p']).look X = some (.sys s) := by rw [look_allocs_lt h _ hXlt]; exact lX
+  have hk : Keeps h X ((h.allocs [.par p']).put X (.sys { s with params := h.next })) :=
+    (keeps_allocs h X _).trans (keeps_put lX1 (by intro v; simp) (by intro e; simp))
+  have hs' : ((h.allocs [.par p']).put X (.sys { s with params := h.next })).getSys X
+      = some { s with params := h.next } := by
+    apply getSys_of_look
+    rw [look_put, if_pos rfl, if_pos (by rw [next_allocs]; exact Nat.lt_of_lt_of_le hXlt (Nat.le_add_right _ _))]
+  have hm' : ((h.allocs [.par p']).put X (.sys { s with params := h.next })).getMap s.vars = some m0 := by
+    rw [getMap_congr (look_put_ne _ _ (ne_of_look lX lM (by simp))), getMap_congr (look_allocs_lt h _ hMlt)]
+    exact hm0
+  have hp' : ((h.allocs [.par p']).put X (.sys { s with params := h.next })).getPar h.next = some p' := by
+    apply getPar_of_look
+    rw [look_put_ne _ _ (Nat.ne_of_lt hXlt), look_allocs, if_neg (Nat.lt_irrefl _), Nat.sub_self]; rfl
+  refine ⟨sysWF_intro hs' hm' hp' (fun e hmem => ?_), ?_, (fun hb' => by cases hb'), hk, fun s1 hs1 => ?_⟩
+  · obtain ⟨v, hv⟩ := he0 e hmem
+    exact ⟨v, hk.keepVar _ _ hv⟩
+  · intro nm _
+    rw [varObs_eq hs' hm', varObs_eq hs hm0]
+    cases hd : dictGet nm m0 with
+    | none => rfl
+    | some vid =>
+      obtain ⟨v, hv⟩ := he0 _ (mem_of_dictGet hd)
+      dsimp only
+      rw [hk.keepVar _ _ hv, hv]
+  · rw [hs] at hs1; cases hs1; exact ⟨_, hs', rfl, rfl, rfl⟩
+
+/-- overwriting the tree `X` holds, in place -/
+theorem modSpec_putPar {h : Heap} {X : Oid} (hw : SysWF h X) {s : SysObj} (hs : h.getSys X = some s)
+    (p' : ParamTree) : ModSpec h X [] true (h.put s.params (.par p')) := by
+  obtain ⟨s0, m0, p0, hs0, hm0, hp0, he0⟩ := hw
+  rw [hs] at hs0; cases hs0
+  have lX := look_of_getSys hs
+  have lM := look_of_getMap hm0
+  have lP := look_of_getPar hp0
+  have hPlt := lt_next_of_look h lP
+  have hk : Keeps h X (h.put s.params (.par p')) := keeps_put lP (by intro v; simp) (by intro e; simp)
+  have hs' : (h.put s.params (.par p')).getSys X = some s := by
+    rw [getSys_congr (look_put_ne _ _ (ne_of_look lP lX (by simp)))]; exact hs
+  have hm' : (h.put s.params (.par p')).getMap s.vars = some m0 := by
+    rw [getMap_congr (look_put_ne _ _ (ne_of_look lP lM (by simp)))]; exact hm0
+  have hp' : (h.put s.params (.par p')).getPar s.params = some p' := by
+    apply getPar_of_look; rw [look_put, if_pos rfl, if_pos hPlt]
+  refine ⟨sysWF_intro hs' hm' hp' (fun e hmem => ?_), ?_, (fun hb' => by cases hb'), hk, fun s1 hs1 => ?_⟩
+  · obtain ⟨v, hv⟩ := he0 e hmem
+    exact ⟨v, hk.keepVar _ _ hv⟩
+  · intro nm _
+    rw [varObs_eq hs' hm', varObs_eq hs hm0]
+    cases hd : dictGet nm m0 with
+    | none => rfl
+    | some vid =>
+      obtain ⟨v, hv⟩ := he0 _ (mem_of_dictGet hd)
+      dsimp only
+      rw [hk.keepVar _ _ hv, hv]
+  · rw [hs] at hs1; cases hs1; exact ⟨_, hs', rfl, rfl, rfl⟩
+
+theorem modSpec_loadExtension {h : Heap} {X : Oid} (hw : SysWF h X) (e : Ext) :
+    ModSpec h X (e.vars.map (fun c => c.name)) (!e.params.isEmpty) (loadExtension h X e).1 := by
+  have sp1 := modSpec_addVariables hw e.vars
+  have hne : ∀ {l : ParamTree}, l ≠ [] → (!l.isEmpty) = false → False := by
+    intro l hl hb; cases l with
+    | nil => exact hl rfl
+    | cons a r => simp at hb
+  rcases loadExtension_inv h X e with he | ⟨h1, s, p, b, p', r, ha, hs, hp, hb, hq, he⟩ | ⟨h1, s, p, p', r, ha, hs, hp, hb, hq, he⟩
+  · rw [he]; exact sp1.weaken (fun _ hn => hn) (fun _ => rfl)
+  · rw [ha] at sp1
+    rw [he]
+    exact (sp1.trans (modSpec_rebind sp1.wf hs p')).weaken (fun n hn => by simpa using hn)
+      (fun hb' => (hne hq hb').elim)
+  · rw [ha] at sp1
+    rw [he]
+    exact (sp1.trans (modSpec_putPar sp1.wf hs p')).weaken (fun n hn => by simpa using hn)
+      (fun hb' => (hne hq hb').elim)
+
 theorem modSpec_applyMod {h : Heap} {X : Oid} (hw : SysWF h X) (m : Mod) :
     ModSpec h X m.touched m.isParams (applyMod h X m).1 := by
   cases m with
@@ -1555,6 +1755,7 @@ theorem modSpec_applyMod {h : Heap} {X : Oid} (hw : SysWF h X) (m : Mod) :
   | neutralize nm => exact modSpec_neutralizeVar hw nm _
   | annualize nm => exact modSpec_annualizeVar hw nm _
   | params us => exact modSpec_modifyParams hw us
+  | loadExt e => exact modSpec_loadExtension hw e
 
 /-- a whole `apply()` -/
 theorem modSpec_applyMods {h : Heap} {X : Oid} (hw : SysWF h X) (ms : List Mod) :
@@ -2268,6 +2469,40 @@ theorem look_bindVar_other {h : Heap} (s : SysObj) (m : List (String × Oid)) (n
   show ((h.allocs [.var w]).put s.vars _).look i = _
   rw [look_put_ne _ _ (Ne.symm hne), look_allocs_lt h _ hi]
 
+theorem getSys_loadVariable_fwd {h : Heap} {X : Oid} {sX : SysObj} (hs : h.getSys X = some sX)
+    (c : ClassDef) (u : Bool) : (loadVariable h X c u).1.getSys X = some sX := by
+  rcases loadVariable_inv h X c u with ⟨e, he⟩ | ⟨s, m0, v, hs', hm', _, _, he⟩
+  · rw [he]; exact hs
+  · rw [he]
+    rw [hs] at hs'; cases hs'
+    have hne : X ≠ sX.vars := ne_of_look (look_of_getSys hs) (look_of_getMap hm') (by simp)
+    rw [getSys_congr (look_bindVar_other _ _ _ _ (lt_next_of_look h (look_of_getSys hs)) hne)]
+    exact hs
+
+theorem addVariables_other {h : Heap} {X : Oid} {sX : SysObj} (hs : h.getSys X = some sX) (cs : List ClassDef) :
+    (addVariables h X cs).1.getSys X = some sX ∧
+    ∀ i, i < h.next → i ≠ sX.vars → (addVariables h X cs).1.look i = h.look i := by
+  induction cs generalizing h with
+  | nil => exact ⟨hs, fun _ _ _ => rfl⟩
+  | cons c r ih =>
+    have f1 := getSys_loadVariable_fwd hs c false
+    have n1 := next_loadVariable h X c false
+    have l1 : ∀ i, i < h.next → i ≠ sX.vars → (loadVariable h X c false).1.look i = h.look i := by
+      intro i hi hne
+      rcases loadVariable_inv h X c false with ⟨e, he⟩ | ⟨s, m0, v, hs', _, _, _, he⟩
+      · rw [he]
+      · rw [he]; rw [hs] at hs'; cases hs'; exact look_bindVar_other _ _ _ _ hi hne
+    unfold addVariables
+    cases hr : loadVariable h X c false with
+    | mk h1 res =>
+      rw [hr] at f1 n1 l1
+      cases res with
+      | ok u =>
+        cases u
+        obtain ⟨f2, l2⟩ := ih f1
+        exact ⟨f2, fun i hi hne => by rw [l2 i (Nat.lt_of_lt_of_le hi n1) hne, l1 i hi hne]⟩
+      | error e => exact ⟨f1, l1⟩
+
 /-- a modification of `X` writes, among the objects that exist, at most `X` itself, its variable
     dict and its parameter tree -/
 theorem applyMod_look_other {h : Heap} {X : Oid} {sX : SysObj} (hs : h.getSys X = some sX) (m : Mod)
@@ -2311,6 +2546,19 @@ theorem applyMod_look_other {h : Heap} {X : Oid} {sX : SysObj} (hs : h.getSys X 
     · rw [he]
     · rw [he]; rw [look_put_ne _ _ (Ne.symm h1), look_allocs_lt h _ hi]
     · rw [he]; rw [hs] at hs'; cases hs'; rw [look_put_ne _ _ (Ne.symm h3)]
+  | loadExt e =>
+    change (loadExtension h X e).1.look i = h.look i
+    obtain ⟨f1, l1⟩ := addVariables_other hs e.vars
+    have n1 := next_addVariables h X e.vars
+    rcases loadExtension_inv h X e with he | ⟨h1', s, p, b, p', r, ha, hs', _, _, _, he⟩ | ⟨h1', s, p, p', r, ha, hs', _, _, _, he⟩
+    · rw [he]; exact l1 i hi h2
+    · rw [ha] at f1 l1 n1
+      rw [he, look_put_ne _ _ (Ne.symm h1), look_allocs_lt h1' _ (Nat.lt_of_lt_of_le hi n1)]
+      exact l1 i hi h2
+    · rw [ha] at f1 l1 n1
+      rw [f1] at hs'; cases hs'
+      rw [he, look_put_ne _ _ (Ne.symm h3)]
+      exact l1 i hi h2
 
 /-- the observations of a well-formed system read only its own objects and its variables -/
 theorem obs_congr {h h' : Heap} {Z : Oid} {s : SysObj} {m : List (String × Oid)} {p : ParamTree}
@@ -2506,6 +2754,36 @@ theorem consistent_modifyParams {h : Heap} (hc : Consistent h) (X : Oid) (us : L
   · rw [he]
     exact consistent_put_nonvar hc (look_of_getPar hp) (by intro v; simp) (by intro e; simp) (by intro v; simp)
 
+theorem consistent_addVariables {h : Heap} (hc : Consistent h) (X : Oid) (cs : List ClassDef) :
+    Consistent (addVariables h X cs).1 := by
+  induction cs generalizing h with
+  | nil => exact hc
+  | cons c r ih =>
+    have c1 := consistent_loadVariable hc X c false
+    unfold addVariables
+    cases hr : loadVariable h X c false with
+    | mk h1 res =>
+      rw [hr] at c1
+      cases res with
+      | ok u => cases u; exact ih c1
+      | error e => exact c1
+
+theorem consistent_loadExtension {h : Heap} (hc : Consistent h) (X : Oid) (e : Ext) :
+    Consistent (loadExtension h X e).1 := by
+  have c1 := consistent_addVariables hc X e.vars
+  rcases loadExtension_inv h X e with he | ⟨h1, s, p, b, p', r, ha, hs, hp, _, _, he⟩ | ⟨h1, s, p, p', r, ha, hs, hp, _, _, he⟩
+  · rw [he]; exact c1
+  · rw [ha] at c1
+    rw [he]
+    have c2 : Consistent (h1.allocs [.par p']) :=
+      consistent_allocs_nonvar c1 _ (by intro o ho v; simp at ho; subst ho; simp)
+    have lX1 : (h1.allocs [.par p']).look X = some (.sys s) := by
+      rw [look_allocs_lt h1 _ (lt_next_of_look h1 (look_of_getSys hs))]; exact look_of_getSys hs
+    exact consistent_put_nonvar c2 lX1 (by intro v; simp) (by intro e; simp) (by intro v; simp)
+  · rw [ha] at c1
+    rw [he]
+    exact consistent_put_nonvar c1 (look_of_getPar hp) (by intro v; simp) (by intro e; simp) (by intro v; simp)
+
 theorem consistent_applyMod {h : Heap} (hc : Consistent h) (X : Oid) (m : Mod) : Consistent (applyMod h X m).1 := by
   cases m with
   | add c => exact consistent_loadVariable hc X c false
@@ -2514,6 +2792,7 @@ theorem consistent_applyMod {h : Heap} (hc : Consistent h) (X : Oid) (m : Mod) :
   | neutralize nm => exact consistent_neutralizeVar hc X nm
   | annualize nm => exact consistent_annualizeVar hc X nm
   | params us => exact consistent_modifyParams hc X us
+  | loadExt e => exact consistent_loadExtension hc X e
 
 theorem consistent_applyMods {h : Heap} (hc : Consistent h) (X : Oid) (ms : List Mod) :
     Consistent (applyMods h X ms).1 := by
@@ -2690,48 +2969,6 @@ theorem consistent_cloneSys {h : Heap} (hc : Consistent h) {src : Oid} {h' : Hea
                 h.next + 1 + ents.length, s.baseline⟩ :: ents ++ [Obj.par p]) 0
               simpa using this
             exact consistent_put_nonvar c3 lS (by intro v; simp) (by intro e; simp) (by intro v; simp)
-
-theorem consistent_addVariables {h : Heap} (hc : Consistent h) (X : Oid) (cs : List ClassDef) :
-    Consistent (addVariables h X cs).1 := by
-  induction cs generalizing h with
-  | nil => exact hc
-  | cons c r ih =>
-    have c1 := consistent_loadVariable hc X c false
-    unfold addVariables
-    cases hr : loadVariable h X c false with
-    | mk h1 res =>
-      rw [hr] at c1
-      cases res with
-      | ok u => cases u; exact ih c1
-      | error e => exact c1
-
-theorem consistent_loadExtension {h : Heap} (hc : Consistent h) (X : Oid) (e : Ext) :
-    Consistent (loadExtension h X e).1 := by
-  have c1 := consistent_addVariables hc X e.vars
-  unfold loadExtension
-  cases hr : addVariables h X e.vars with
-  | mk h1 res =>
-    rw [hr] at c1
-    cases res with
-    | error er => exact c1
-    | ok u =>
-      cases u
-      dsimp only
-      cases hq : e.params with
-      | nil => exact c1
-      | cons q qs =>
-        dsimp only
-        cases hs : h1.getSys X with
-        | none => exact c1
-        | some s =>
-          dsimp only
-          cases hp : h1.getPar s.params with
-          | none => exact c1
-          | some p =>
-            dsimp only
-            cases hm : mergeParams p (q :: qs) with
-            | mk p' r =>
-              exact consistent_put_nonvar c1 (look_of_getPar hp) (by intro v; simp) (by intro e; simp) (by intro v; simp)
 
 theorem consistent_loadExtensions {h : Heap} (hc : Consistent h) (X : Oid) (es : List Ext) :
     Consistent (loadExtensions h X es).1 := by
